@@ -673,7 +673,10 @@ parser! {
     // There is no location_prefix or size_prefix rule because it would be ambiguous when the % prefix normally
     // resolved ambiguity. Therefore, the lexer matches the entire direct variable.
     pub rule direct_variable() -> AddressAssignment = t:tok(TokenType::DirectAddress) {?
-      AddressAssignment::try_from(t.text.as_str())
+      AddressAssignment::try_from(t.text.as_str()).map(|mut address| {
+        address.position = t.span.clone();
+        address
+      })
     }
     // B.1.4.2 Multi-element variables
     // TODO support these
